@@ -43,6 +43,33 @@ def check_ctls(inp):
     return Failure('ctls', inp, mc.show_mask(exp), mc.show(out), note)
 
 
+VOCAB_TEMPLATES = [('A', ('G', ('F', fm.P))), ('E', ('U', fm.P, ('X', fm.Q))), ('A', ('imp', ('F', fm.Q), ('U', fm.P, fm.Q))),
+                   ('E', ('G', ('or', fm.P, ('A', ('X', fm.Q))))), ('and', fm.P, ('E', ('F', ('G', fm.Q)))), ('A', ('G', ('E', ('F', fm.P))))]
+VOCAB_STRUCTURES = [(2, 77), (3, 1000), (3, 2345), (3, 3210)]
+
+
+def vocab_shard(st, shard, nshards, payload):
+    """Atoms named like the identifiers and string constants of the library's own source (vp/vocab.py)."""
+    from .. import vocab
+    names = vocab.names()
+    Ks = [km.scope_at(n, i) for (n, i) in VOCAB_STRUCTURES]
+    i = -1
+    for w in names:
+        for ki, K in enumerate(Ks):
+            for ti, t in enumerate(VOCAB_TEMPLATES):
+                i += 1
+                if i % nshards != shard or (ki * 5 + ti + len(w)) % payload.get('thin', 1):
+                    continue
+                inp = {'K': K, 'f': t, 'naming': NAMINGS[(ki + ti) % 3], 'how': ti % 6, 'form': ('obj', 'text')[ti % 2],
+                       'atoms': {'p': w}}
+                st.evaluations += 1
+                r = check_ctls(inp)
+                if r is not None:
+                    if st.failure is None:
+                        st.failure = r
+                    return
+
+
 CHECKS = {'ctls': check_ctls}
 
 
@@ -244,6 +271,13 @@ def run(ctx):
     f = core.run_sharded(ctx, enum_shard, {'scopes': scopes})
     if f is not None:
         ctx.violation(minimise(f, check_ctls, valid=fm.ctls_state))
+        return
+
+    ctx.scopes.append('vocabulary: p spelled as each identifier / string constant of the library source (about 500 names) x 6 CTL* templates x 4 structures%s'
+                      % ('' if ctx.thorough else ' (every 3rd combination)'))
+    f = core.run_sharded(ctx, vocab_shard, {'thin': ctx.pick(3, 1)})
+    if f is not None:
+        ctx.violation(f)
         return
 
     f = core.run_random(ctx, random_shard, 800, 12000)
